@@ -165,8 +165,19 @@ def work_deep(args):
             d['style'] = style
             ctx.count('engines')
             check_engine(ctx, d)
+    # the same graphs under a base package with two components
+    nested = dict(aegen.deep_engines())
+    for name, desc in aegen.chain_engines().items():
+        nested['chain:' + name] = {'algs': desc} if isinstance(desc, list) else desc
+    for name, desc in nested.items():
+        for style in ('legacy', 'auto'):
+            d = dict(desc)
+            d['style'] = style
+            d['nested'] = True
+            ctx.count('engines')
+            check_engine(ctx, d)
     out = ctx.export()
-    out['shapes'] = 2 * len(aegen.deep_engines())
+    out['shapes'] = 2 * len(aegen.deep_engines()) + 2 * len(nested)
     return out
 
 
